@@ -704,6 +704,18 @@ def _observe(env: Env16, symbols, typenames, pairs=(), final=True):
         except Exception as e:      # noqa
             obs['type:' + tn] = 'exc:' + type(e).__name__
         obs['convs:' + tn] = len(list(cls.registered_converters()))
+    # attributes of the existing units (a rejected declaration must not
+    # change what is already there)
+    for u in live[:10]:
+        try:
+            q = u.quantum
+            obs['attrs:' + u.symbol] = [
+                u.name, str(u.definition), str(u.normalized_definition),
+                None if q is None else f"{q.numerator}/{q.denominator}",
+                u.is_ref_unit(), u.is_base_unit(),
+                hash(u) == hash(Unit(u.symbol)), u == Unit(u.symbol)]
+        except Exception as e:      # noqa
+            obs['attrs:' + u.symbol] = 'exc:' + type(e).__name__
     # results of operations on what exists
     if not final:
         live, pairs = [], ()
